@@ -7,13 +7,13 @@ package main
 import (
 	"bytes"
 	"fmt"
-	"os"
 	"go/ast"
 	"go/constant"
 	"go/printer"
 	"go/token"
 	"go/types"
 	"math/big"
+	"os"
 	"sort"
 	"strings"
 
@@ -58,32 +58,33 @@ type retPoint struct {
 }
 
 type Exec struct {
-	W           *World
-	S           *Script
-	H           *HeapEnv
-	fn          *ssa.Function
-	fc          *FuncContract
-	discovery   bool
-	loopKeys    map[string]map[string]bool
-	curLoops    []string
-	obls        []*Obligation
-	notes       map[string]bool
-	strLits     map[string]Term
-	entry       *HeapState
-	labelCount  map[string]int
-	inputs      []inputVar
-	inlineMax   int
-	funcsSeen   map[string]bool
-	specDecls   map[string]bool
-	entryVars   map[string]Val
-	allocBound  *Term
-	vacChecks   []*Obligation
-	localRefs   map[string]bool
-	topParams   []Val
-	curResults  []Val
-	modTargets  []modTarget
-	explicitMod bool
-	loopLocal   map[string]map[string]bool // loop id -> key -> written at a reference that is not a modifies target
+	W            *World
+	S            *Script
+	H            *HeapEnv
+	fn           *ssa.Function
+	fc           *FuncContract
+	discovery    bool
+	loopKeys     map[string]map[string]bool
+	curLoops     []string
+	obls         []*Obligation
+	notes        map[string]bool
+	strLits      map[string]Term
+	entry        *HeapState
+	labelCount   map[string]int
+	inputs       []inputVar
+	inlineMax    int
+	funcsSeen    map[string]bool
+	specDecls    map[string]bool
+	entryVars    map[string]Val
+	allocBound   *Term
+	vacChecks    []*Obligation
+	localRefs    map[string]bool
+	strictSlices bool // slice values coming from outside (parameters, results of unmodelled calls) do not alias embedded arrays
+	topParams    []Val
+	curResults   []Val
+	modTargets   []modTarget
+	explicitMod  bool
+	loopLocal    map[string]map[string]bool // loop id -> key -> written at a reference that is not a modifies target
 }
 
 // freshRef allocates a new reference in the current state of f.
@@ -288,7 +289,11 @@ func (x *Exec) wfFacts(t types.Type, vals []Term, next Term) []Term {
 	switch u := t.Underlying().(type) {
 	case *types.Slice:
 		arr, off, ln, cp := vals[0], vals[1], vals[2], vals[3]
-		// (backing arrays of package-level slices live at negative references)
+		// (backing arrays of package-level slices live at small negative references; arrays embedded in
+		// objects, which only a slice expression on them can reach, live below -2^40)
+		if x.strictSlices {
+			out = append(out, IntLt(IntConst(-(1<<40)), arr))
+		}
 		out = append(out, IntLt(arr, next),
 			BVCmp("bvule", ln, cp), BVCmp("bvule", cp, sizeLimit), BVCmp("bvule", off, sizeLimit),
 			Implies(Eq(arr, IntConst(0)), Eq(cp, BVInt(0, 64))))
@@ -1327,7 +1332,11 @@ func (f *frame) step(ins ssa.Instruction) {
 	case *ssa.MapUpdate:
 		x.note("map contents are not modelled (updates ignored, lookups unconstrained)")
 	case *ssa.MakeClosure:
-		abort("closure creation")
+		// an opaque function value: calls that receive it (or invoke it) havoc all memory
+		x.note("closures are opaque: any call that receives or invokes one is taken to modify all memory")
+		r := x.S.Declare("closure", SInt)
+		f.assume(IntLt(IntConst(0), r))
+		f.vals[t] = Val{T: []Term{r}, Typ: t.Type()}
 	case *ssa.Go:
 		abort("go statement")
 	case *ssa.Select:
